@@ -74,7 +74,7 @@ func runCheck(ld *Loaded, db *SpecDB, work string, t0 time.Time) int {
 	genS := time.Since(tGen).Seconds()
 	agree := *flagTier == "thorough"
 	tSolve := time.Now()
-	discharge(all, work, *flagTimeout, agree, numWorkers())
+	batchDischarge(all, work, *flagTimeout, agree, numWorkers())
 	solveS := time.Since(tSolve).Seconds()
 
 	// group by name
